@@ -37,6 +37,7 @@ fn dispatch(op: &str, req: &Value) -> Value {
         "writer" => ops_writer::run(req),
         "env-apply" => ops_env::apply(req),
         "env-roundtrip" => ops_env::roundtrip(req),
+        "env-paths" => ops_env::paths(req),
         "dep-graph" => ops_graph::run(req),
         _ => json!({"error": format!("unknown op {op}")}),
     }
